@@ -588,8 +588,17 @@ func init() {
 				extra := stage.Extra
 				w := c09StageWorld(stage)
 				if w.state.Signer != nil {
-					c.Res.HarnessErr = "stage " + stage.Deploy + " is not sealed"
-					return
+					if stage.Deploy == "" {
+						c.Res.HarnessErr = "the world of part (a) is not sealed"
+						return
+					}
+					// the injection was refused (the loader does not take this primary key),
+					// yet it left a signer behind: the server is not sealed any more
+					if c.Shard == 0 {
+						c.Violate("C09|unsealed-by-refused-injection|unsealCA|"+stage.Deploy, "the correct passphrase on a deployment whose primary key the loader refuses was answered with an error, yet the server holds a signer afterwards", c09Point{Part: "pass", Deploy: stage.Deploy, Pass: "correct", Delivery: "tls-verified"})
+					}
+					w.Close()
+					continue
 				}
 				type rt struct{ name, path string }
 				var rts []rt
